@@ -324,6 +324,12 @@ class ParametricModelBaseMixin(object):
     def _get_object_type_name(cls):
         return "parametric_model"
 
+    def _calculate_total_error(self):
+        # relative errors refer to the model values: bring them up to date before the error sources are summed
+        if self._pm_calculation_stale:
+            self._recalculate()
+        super(ParametricModelBaseMixin, self)._calculate_total_error()
+
     @property
     def ndf(self):
         return self.size - self._model_function_object.parcount
